@@ -20,7 +20,8 @@ def S(x):
 
 
 def _simp(x):
-    return SymInt(z3.simplify(S(x).e))
+    x = S(x)
+    return SymInt(z3.simplify(x.e), x.lo, x.hi)
 
 
 def _conc(x):
@@ -256,5 +257,8 @@ def symord(x):
 
 def symint(x):
     if isinstance(x, SymInt):
-        return SymInt(z3.ToInt(x.e)) if x.is_real() else x
+        if not x.is_real():
+            return x
+        import math
+        return SymInt(z3.ToInt(x.e), None if x.lo is None else math.floor(x.lo), None if x.hi is None else math.floor(x.hi))
     return int(x)
